@@ -31,11 +31,11 @@ def main():
         if a.replay:
             rep = json.load(open(a.replay))
             ctx.replaying = rep
-        if not br.go_ok:
+        needs = getattr(mod, "HARNESS_BINS", ["vh"])
+        if any(not br.go_bins.get(b, False) for b in needs):
             run_err = "harness (go build -tags verif) no longer builds against the tree:\n" + br.go_log[-3000:]
-            # modules that can work through the frugal binary alone still run
-            if getattr(mod, "NEEDS_HARNESS", True) is False and br.frugal_ok:
-                run_err = None
+        if getattr(mod, "NEEDS_FRUGAL", False) and not br.frugal_ok:
+            run_err = "the frugal compiler no longer builds:\n" + br.frugal_log[-3000:]
         if run_err is None:
             try:
                 cov = mod.run(ctx, br) or {}
